@@ -15,7 +15,7 @@ EXPLANATION = (
     'value == max and a fresh acquire(max) is granted at once. The schedule space is partitioned by what cancel() hits '
     '(blocked waiter / anything else / both) so that each leak mechanism is its own obligation; every counterexample is '
     're-run on the stock asyncio loop against the real class before it is reported. Only "Confirmed over all paths" '
-    'discharges a shard. Bounded: quick 2 tasks, capacity 2, k=4 steps; thorough adds 2 tasks k=5 and 3 tasks capacity 3 k=4.'
+    'discharges a shard. Bounded: quick 2 tasks, capacity 2, k=4 steps plus 3 tasks, capacity 3, k=4 with normal exits and full drains; thorough adds 2 tasks k=5 and 3 tasks capacity 3 k=4.'
 )
 SRC = 'hail/python/hailtop/aiotools/weighted_semaphore.py'
 HM = 'harness.C40_wsem'
@@ -41,15 +41,21 @@ def describe(a, meta):
         + ' '.join(x + {0: '', 1: '+1iter', 2: '+drain'}[d] for x, d in zip(acts, dr)))
 
 
-def groups_for(nt, cap, k, shard_on):
+def plain(nt, k):
+    """the 'plain' sub-family: bodies end normally, the loop is drained after every step (error exits and partial drains are
+    explored by the families without this restriction)"""
+    return {**{f'e{i}': False for i in range(nt)}, **{f'd{i}': 2 for i in range(k - 1)}}
+
+
+def groups_for(nt, cap, k, shard_on, modes=(0, 1, 2), const=None, tag=''):
     out = []
-    for mode in (0, 1, 2):
+    for mode in modes:
         if mode == 2 and k < 4:
             continue
-        name = f'C40_n{nt}k{k}m{mode}'
+        name = f'C40_n{nt}k{k}m{mode}{tag}'
         out.append((mode, sched.gen_shards(name, HM, params(nt, cap, k), shard_on,
-                                           entry=(f'check_{nt}_{cap}_{k}', f'reach_{nt}_{cap}_{k}'), const={'mode': mode},
-                                           prefix=f'n{nt}k{k}m{mode}_', meta={'nt': nt, 'cap': cap, 'k': k, 'mode': mode})[1]))
+                                           entry=(f'check_{nt}_{cap}_{k}', f'reach_{nt}_{cap}_{k}'), const={'mode': mode, **(const or {})},
+                                           prefix=f'n{nt}k{k}m{mode}{tag}_', meta={'nt': nt, 'cap': cap, 'k': k, 'mode': mode})[1]))
     return out
 
 
@@ -63,15 +69,18 @@ def run(R):
     D = [0, 1, 2]
     if R.tier == 'quick':
         pct = 240
-        groups = groups_for(2, 2, 4, {'a1': [0, 1, 2], 'd0': D})
-        R.bounds = {'tasks': 2, 'capacity': 2, 'weights': '1..2 symbolic', 'steps': 'k=4',
+        groups = (groups_for(2, 2, 4, {'a1': [0, 1, 2], 'd0': D})
+                  + groups_for(3, 3, 4, {'a1': [0, 1, 2], 'w0': [1, 2, 3]}, const=plain(3, 4), tag='p'))
+        R.bounds = {'tasks': '2 tasks capacity 2 k=4 (everything symbolic); 3 tasks capacity 3 k=4 with normal exits and full drains (weights, actions symbolic)', 'capacity': 2, 'weights': '1..capacity symbolic', 'steps': 'k=4',
                     'drain': '0 / one loop iteration / until quiescent, symbolic per step (last step drains)'}
     else:
         pct = 1300
         groups = (groups_for(2, 2, 4, {'a1': [0, 1, 2], 'd0': D})
                   + groups_for(2, 2, 5, {'a1': [0, 1, 2], 'd0': D, 'd1': D, 'w0': [1, 2]})
-                  + groups_for(3, 3, 4, {'a1': [0, 1, 2], 'd0': D, 'w0': [1, 2, 3]}))
-        R.bounds = {'shapes': '(2 tasks, capacity 2, k=4), (2 tasks, capacity 2, k=5), (3 tasks, capacity 3, k=4)',
+                  + groups_for(3, 3, 4, {'a1': [0, 1, 2], 'd0': D, 'w0': [1, 2, 3]})
+                  + groups_for(3, 3, 5, {'a1': [0, 1, 2], 'a2': [0, 1, 2, 3, 4], 'w0': [1, 2, 3]}, const=plain(3, 5), tag='p')
+                  + groups_for(3, 3, 6, {'a1': [0, 1, 2], 'a2': [0, 1, 2, 3, 4], 'w0': [1, 2, 3]}, modes=(0,), const=plain(3, 6), tag='p'))
+        R.bounds = {'shapes': '(2 tasks, capacity 2, k=4), (2 tasks, capacity 2, k=5), (3 tasks, capacity 3, k=4); with normal exits and full drains also (3 tasks, capacity 3, k=5) and, for cancels of blocked waiters, k=6',
                     'weights': '1..capacity symbolic',
                     'drain': '0 / one loop iteration / until quiescent, symbolic per step (last step drains)'}
     R.assume('tasks are started in index order (they differ only by symbolic weight and error flag); step 0 is a start',
